@@ -43,8 +43,7 @@ struct in_s {
 };
 #include "verif_in.h"
 
-void harness(void) {
-	V_BEGIN();
+static void body(void) {
 	sb_garbage = IN.garbage;
 	unsigned i = IN.i, want;
 	uint32_t k = IN.k, l = IN.l;
@@ -120,4 +119,10 @@ void harness(void) {
 	if (k > 255) V_WITNESS("scalar wider than the curve");
 	if (0 == i) V_WITNESS("point at infinity");
 	if (0 != want) V_WITNESS("finite result");
+}
+
+void harness(void) {
+	V_BEGIN();
+	body();
+	ENV_FINAL();
 }
